@@ -376,7 +376,7 @@ CHECK = {
                     "toENU(WGS84Coordinates) is read as 'the point at the anchor's altitude' (altitude 0 on a fresh/reset converter)"],
     "run_timeout": 900,
     "manifest": {
-        "text": "SYNTACTIC TIE: the 3x3 frame block written by setAnchor is re-translated from the clang AST of the current source on every run (translate/srcfuns.py -> coq/gen/SrcFuns.v) and proved equal to the model's frame matrix. Coq theorems over the reals about a state-machine model of ENUConverter: the frame matrix is a proper rotation "
+        "text": "SYNTACTIC TIE: the 3x3 frame block written by setAnchor is re-translated from the clang AST of the current source on every run (translate/srcfuns.py -> coq/gen/SrcFunsC02.v) and proved equal to the model's frame matrix. Coq theorems over the reals about a state-machine model of ENUConverter: the frame matrix is a proper rotation "
                 "(R^T R = I, det = 1) whose columns are the normalised longitude- and latitude-derivatives of toECEF (east, north) and "
                 "the ellipsoid normal (up); the anchor maps to the origin, a point h above it to (0,0,h); to-local is an isometry and "
                 "is inverse to to-ECEF both ways (Eigen's adjugate inverse of a rotation is its transpose); for every operation "
